@@ -6,6 +6,7 @@ package c14
 import (
 	"errors"
 	"fmt"
+	"math"
 	"strconv"
 	"testing"
 
@@ -27,6 +28,9 @@ type Case struct {
 	J        int   `json:"j"`        // MapErr: the conversion fails on its J-th call (0-based) and on every later one; J>=len(S): never
 	Set      []int `json:"set"`      // unwanted values (Trim family) / values to exclude (Except, ExceptSet)
 	Fallback int   `json:"fallback"` // SafeGetOr fallback
+	// Nest > 0: while the outer helper is running, its callback calls a bundle of helpers on another slice
+	// (re-entrancy): on the callback invocations number Nest-1, Nest-1+(n+2), Nest-1+2(n+2), ... counted over the whole case
+	Nest int `json:"nest,omitempty"`
 }
 
 type myInts []int
@@ -36,12 +40,15 @@ const (
 	scribble  = -7777 // written over every element of a returned slice
 	loUniv    = -1    // values probed by Index/Contains
 	hiUniv    = 6
-	sliceRule = "case = (slice over 0..5 with poisoned spare capacity, modulus m, residue r, threshold c, fold seed, " +
-		"MapErr failing call j, unwanted/exclude list, fallback); every slice helper named in C14 is run on each case and compared " +
-		"with a naive loop; after every call the full-capacity snapshot of every argument must be unchanged, and every " +
-		"element of every returned slice is overwritten and the snapshot compared again (Trim family instead: result must " +
-		"be the sub-slice s[lo:hi] of the argument, by address); non-trivial = at least 3 elements, a duplicate value and " +
-		"at least 2 distinct values"
+	sliceRule = "case = (int slice with poisoned spare capacity, modulus m, residue r, threshold c, fold seed, " +
+		"MapErr failing call j, unwanted/exclude list, fallback, nest); every slice helper named in C14 is run on each case and compared " +
+		"with a naive loop (Index/Contains/ContainsFunc probe -1..6, the first, middle and last element, min-1 and max+1; TryGet/SafeGet/SafeGetOr " +
+		"probe indices -2..n+1 (a selection when n>64) and MinInt/MaxInt); after every call - and from inside every callback " +
+		"(every call when the backing array has at most 64 elements, sampled otherwise) - the full-capacity snapshot of every argument must be unchanged, and " +
+		"every returned slice is overwritten up to its full capacity and the snapshot compared again (Trim family instead: result must " +
+		"be the sub-slice s[lo:hi] of the argument, by address); nest>0: callbacks re-enter the library (Fold, FoldReverse, Map, MapErr, Filter, Any, All, " +
+		"Index, Distinct, DistinctFunc, GroupBy, CountBy, Except, Trim on a second slice, results checked) while the outer helper is running; " +
+		"non-trivial = at least 3 elements, a duplicate value and at least 2 distinct values"
 )
 
 func eqInts(a, b []int) bool {
@@ -54,6 +61,27 @@ func eqInts(a, b []int) bool {
 		}
 	}
 	return true
+}
+
+// show prints a slice, abbreviated when it is long (the full case is in the replay file).
+func show(a []int) string {
+	if len(a) <= 40 {
+		return fmt.Sprint(a)
+	}
+	return fmt.Sprintf("(len %d)%v...%v", len(a), a[:16], a[len(a)-4:])
+}
+
+// diffAt names the first difference of two long slices.
+func diffAt(got, want []int) string {
+	if len(got) <= 40 && len(want) <= 40 {
+		return ""
+	}
+	for i := 0; i < len(got) && i < len(want); i++ {
+		if got[i] != want[i] {
+			return fmt.Sprintf(" (lengths %d/%d; first difference at index %d: got %d, want %d)", len(got), len(want), i, got[i], want[i])
+		}
+	}
+	return fmt.Sprintf(" (lengths %d/%d; equal up to the shorter length)", len(got), len(want))
 }
 
 func has(list []int, v int) bool {
@@ -97,41 +125,62 @@ func groupsOf[K comparable](s []int, keyer func(int) K) []slices.Grouping[K, int
 // The first line of these messages depends on the case only (rapid shrinks by re-running and insists on an
 // identical message); what the library returned - possibly in map-iteration order - follows on the second line.
 func checkGroups[K comparable](op, desc string, n int, got, want []slices.Grouping[K, int]) string {
-	head := fmt.Sprintf("%s (%s) differs from its definition (groups in first-appearance order of their key, members in original order, sizes summing to %d): want %v\n", op, desc, n, want)
+	detail := ""
 	if len(got) != len(want) {
-		return head + fmt.Sprintf("got %v: %d groups, want %d", got, len(got), len(want))
-	}
-	total := 0
-	for i, g := range got {
-		if g.Key != want[i].Key {
-			return head + fmt.Sprintf("got %v: group %d has key %v, want %v", got, i, g.Key, want[i].Key)
+		detail = fmt.Sprintf("%d groups, want %d", len(got), len(want))
+	} else {
+		total := 0
+		for i, g := range got {
+			if g.Key != want[i].Key {
+				detail = fmt.Sprintf("group %d has key %v, want %v", i, g.Key, want[i].Key)
+				break
+			}
+			if !eqInts(g.Values, want[i].Values) {
+				detail = fmt.Sprintf("group %d (key %v) has members %s, want %s", i, g.Key, show(g.Values), show(want[i].Values))
+				break
+			}
+			total += len(g.Values)
 		}
-		if !eqInts(g.Values, want[i].Values) {
-			return head + fmt.Sprintf("got %v: group %d (key %v) has members %v, want %v", got, i, g.Key, g.Values, want[i].Values)
+		if detail == "" && total != n {
+			detail = fmt.Sprintf("group sizes sum to %d", total)
 		}
-		total += len(g.Values)
 	}
-	if total != n {
-		return head + fmt.Sprintf("got %v: group sizes sum to %d", got, total)
+	if detail == "" {
+		return ""
 	}
-	return ""
+	return fmt.Sprintf("%s (%s) differs from its definition (groups in first-appearance order of their key, members in original order, sizes summing to %d): want %s\ngot %s: %s",
+		op, desc, n, showAny(want, n), showAny(got, n), detail)
+}
+
+// showAny prints v unless the case is large (the full case is in the replay file).
+func showAny(v any, n int) string {
+	if n <= 40 {
+		return fmt.Sprint(v)
+	}
+	return "(large, see the detail that follows)"
 }
 
 func checkCounts[K comparable](op, desc string, got []slices.Counting[K], want []slices.Grouping[K, int]) string {
+	detail := ""
+	if len(got) != len(want) {
+		detail = fmt.Sprintf("%d entries, want %d", len(got), len(want))
+	} else {
+		for i := range got {
+			if w := (slices.Counting[K]{Key: want[i].Key, Count: len(want[i].Values)}); got[i] != w {
+				detail = fmt.Sprintf("entry %d is %v, want %v", i, got[i], w)
+				break
+			}
+		}
+	}
+	if detail == "" {
+		return ""
+	}
 	wantC := make([]slices.Counting[K], len(want))
 	for i, g := range want {
 		wantC[i] = slices.Counting[K]{Key: g.Key, Count: len(g.Values)}
 	}
-	head := fmt.Sprintf("%s (%s) differs from its definition (one entry per key in first-appearance order): want %v\n", op, desc, wantC)
-	if len(got) != len(wantC) {
-		return head + fmt.Sprintf("got %v: %d entries, want %d", got, len(got), len(wantC))
-	}
-	for i := range got {
-		if got[i] != wantC[i] {
-			return head + fmt.Sprintf("got %v: entry %d is %v, want %v", got, i, got[i], wantC[i])
-		}
-	}
-	return ""
+	return fmt.Sprintf("%s (%s) differs from its definition (one entry per key in first-appearance order): want %s\ngot %s: %s",
+		op, desc, showAny(wantC, len(wantC)), showAny(got, len(got)), detail)
 }
 
 // Run executes every slice helper on the case.
@@ -161,7 +210,8 @@ func Run(c Case) pbt.Outcome {
 	orig := append([]int(nil), c.S...)
 	set := append(myInts(nil), c.Set...)
 	setSnap := append([]int(nil), c.Set...)
-	desc := fmt.Sprintf("s=%v spare=%d", orig, len(back)-n)
+	desc := fmt.Sprintf("s=%s spare=%d", show(orig), len(back)-n)
+	setDesc := show(setSnap)
 
 	out := pbt.Outcome{}
 	// intact: no argument (slice incl. its spare capacity, unwanted/exclude list) was modified
@@ -172,21 +222,23 @@ func Run(c Case) pbt.Outcome {
 		}
 		for i := range back {
 			if back[i] != snap[i] {
-				return fmt.Sprintf("%s modified its input (%s): backing array now %v, was %v", op, desc, []int(back), snap)
+				return fmt.Sprintf("%s modified its input (%s): backing array now %s, was %s (index %d: now %d, was %d)", op, desc, show(back), show(snap), i, back[i], snap[i])
 			}
 		}
 		if len(set) != len(setSnap) {
-			return fmt.Sprintf("%s changed the length of its second argument: %v, was %v", op, []int(set), setSnap)
+			return fmt.Sprintf("%s changed the length of its second argument: %s, was %s", op, show(set), setDesc)
 		}
 		for i := range set {
 			if set[i] != setSnap[i] {
-				return fmt.Sprintf("%s modified its second argument: now %v, was %v", op, []int(set), setSnap)
+				return fmt.Sprintf("%s modified its second argument: now %s, was %s", op, show(set), setDesc)
 			}
 		}
 		return ""
 	}
 	// fresh: the returned slice can be overwritten without affecting the input
+	// (up to its full capacity: the caller may append to it)
 	fresh := func(op string, res []int) string {
+		res = res[:cap(res)]
 		for i := range res {
 			res[i] = scribble
 		}
@@ -199,7 +251,7 @@ func Run(c Case) pbt.Outcome {
 	checkNew := func(op string, got, want []int) string {
 		out.Evals++
 		if !eqInts(got, want) {
-			return fmt.Sprintf("%s (%s) = %v, want %v", op, desc, got, want)
+			return fmt.Sprintf("%s (%s) = %s, want %s%s", op, desc, show(got), show(want), diffAt(got, want))
 		}
 		if m := intact(op); m != "" {
 			return m
@@ -210,15 +262,42 @@ func Run(c Case) pbt.Outcome {
 	checkSub := func(op string, got myInts, lo, hi int) string {
 		out.Evals++
 		if !eqInts(got, orig[lo:hi]) {
-			return fmt.Sprintf("%s (%s) = %v, want s[%d:%d] = %v", op, desc, []int(got), lo, hi, orig[lo:hi])
+			return fmt.Sprintf("%s (%s) = %s, want s[%d:%d] = %s", op, desc, show(got), lo, hi, show(orig[lo:hi]))
 		}
 		if m := intact(op); m != "" {
 			return m
 		}
 		if len(got) > 0 && &got[0] != &s[lo] {
-			return fmt.Sprintf("%s (%s): result %v is not a sub-slice of its argument (different memory)", op, desc, []int(got))
+			return fmt.Sprintf("%s (%s): result %s is not a sub-slice of its argument (different memory)", op, desc, show(got))
 		}
 		return ""
+	}
+	// lazyVal is checkVal for the hot loops: nothing is formatted unless something is wrong
+	lazyVal := func(ok bool, got, want any, format string, a ...any) string {
+		out.Evals++
+		if ok && during == "" && len(set) == len(setSnap) {
+			same := true
+			for i := range back {
+				if back[i] != snap[i] {
+					same = false
+					break
+				}
+			}
+			for i := range set {
+				if set[i] != setSnap[i] {
+					same = false
+					break
+				}
+			}
+			if same {
+				return ""
+			}
+		}
+		op := fmt.Sprintf(format, a...)
+		if !ok {
+			return fmt.Sprintf("%s (%s) = %v, want %v", op, desc, got, want)
+		}
+		return intact(op)
 	}
 	checkVal := func(op string, ok bool, got, want any) string {
 		out.Evals++
@@ -230,16 +309,32 @@ func Run(c Case) pbt.Outcome {
 
 	// observe is called at the start of every callback the harness hands to the library: the input must be
 	// unmodified not only after a call but also DURING it (a callback, or another goroutine, may look at it)
+	// (on every call for backing arrays of at most 64 elements, on every len(back)-th call otherwise). With Nest>0 the
+	// callback also re-enters the library.
+	obsCalls, inNested := 0, false
+	var nested func()
 	observe := func() {
-		if during != "" {
+		if inNested {
+			return
+		}
+		obsCalls++
+		if c.Nest > 0 && obsCalls >= c.Nest && (obsCalls-c.Nest)%(n+2) == 0 {
+			inNested = true
+			nested()
+			inNested = false
+		}
+		if during != "" || (len(back) > 64 && obsCalls%len(back) != 0) {
 			return
 		}
 		for i := range back {
 			if back[i] != snap[i] {
-				during = fmt.Sprintf("the input was modified while the helper was running (seen from inside a callback): backing array %v, was %v", []int(back), snap)
+				during = fmt.Sprintf("the input was modified while the helper was running (seen from inside a callback): backing array %s, was %s", show(back), show(snap))
 				return
 			}
 		}
+	}
+	if c.Nest > 0 {
+		nested = newNested(orig, c.Nest, &during)
 	}
 	preds := []pred{
 		{fmt.Sprintf("v%%%d==%d", m, r), func(v int) bool { observe(); return v%m == r }},
@@ -250,31 +345,39 @@ func Run(c Case) pbt.Outcome {
 	// ---- Fold / FoldReverse: order-sensitive accumulators, State != E for the string one
 	{
 		accI := func(st, v int) int { observe(); return st*31 + v }
-		accS := func(st string, v int) string { observe(); return st + strconv.Itoa(v) }
+		// the string state keeps its last 64 bytes only (long slices: no quadratic memory); still order-sensitive
+		pureS := func(st string, v int) string {
+			st += strconv.Itoa(v)
+			if len(st) > 64 {
+				st = st[len(st)-64:]
+			}
+			return st
+		}
+		accS := func(st string, v int) string { observe(); return pureS(st, v) }
 		wantI, wantS := c.Seed, "<"
 		for i := 0; i < n; i++ {
 			wantI = wantI*31 + orig[i]
-			wantS = wantS + strconv.Itoa(orig[i])
+			wantS = pureS(wantS, orig[i])
 		}
 		gotI := slices.Fold(s, c.Seed, accI)
 		if msg := checkVal("Fold(s, seed="+strconv.Itoa(c.Seed)+", st*31+v)", gotI == wantI, gotI, wantI); msg != "" {
 			return pbt.Fail("%s", msg)
 		}
 		gotS := slices.Fold(s, "<", accS)
-		if msg := checkVal(`Fold(s, "<", st+str(v))`, gotS == wantS, gotS, wantS); msg != "" {
+		if msg := checkVal(`Fold(s, "<", last64(st+str(v)))`, gotS == wantS, gotS, wantS); msg != "" {
 			return pbt.Fail("%s", msg)
 		}
 		wantI, wantS = c.Seed, "<"
 		for i := n - 1; i >= 0; i-- {
 			wantI = wantI*31 + orig[i]
-			wantS = wantS + strconv.Itoa(orig[i])
+			wantS = pureS(wantS, orig[i])
 		}
 		gotI = slices.FoldReverse(s, c.Seed, accI)
 		if msg := checkVal("FoldReverse(s, seed="+strconv.Itoa(c.Seed)+", st*31+v)", gotI == wantI, gotI, wantI); msg != "" {
 			return pbt.Fail("%s", msg)
 		}
 		gotS = slices.FoldReverse(s, "<", accS)
-		if msg := checkVal(`FoldReverse(s, "<", st+str(v))`, gotS == wantS, gotS, wantS); msg != "" {
+		if msg := checkVal(`FoldReverse(s, "<", last64(st+str(v)))`, gotS == wantS, gotS, wantS); msg != "" {
 			return pbt.Fail("%s", msg)
 		}
 	}
@@ -293,11 +396,11 @@ func Run(c Case) pbt.Outcome {
 		gotS := slices.Map(s, func(v int) string { observe(); return "#" + strconv.Itoa(v) })
 		out.Evals++
 		if len(gotS) != n {
-			return pbt.Fail("Map(s, \"#\"+str(v)) (%s) = %q: length %d, want %d", desc, gotS, len(gotS), n)
+			return pbt.Fail("Map(s, \"#\"+str(v)) (%s): result has length %d, want %d", desc, len(gotS), n)
 		}
 		for i := range gotS {
 			if gotS[i] != "#"+strconv.Itoa(orig[i]) {
-				return pbt.Fail("Map(s, \"#\"+str(v)) (%s) = %q: element %d, want %q", desc, gotS, i, "#"+strconv.Itoa(orig[i]))
+				return pbt.Fail("Map(s, \"#\"+str(v)) (%s): element %d of the result is %q, want %q", desc, i, gotS[i], "#"+strconv.Itoa(orig[i]))
 			}
 		}
 		if msg := intact("Map(s, \"#\"+str(v))"); msg != "" {
@@ -329,13 +432,13 @@ func Run(c Case) pbt.Outcome {
 		op := fmt.Sprintf("MapErr(s, conv failing from call %d on)", c.J)
 		if c.J >= 0 && c.J < n {
 			if err == nil {
-				return pbt.Fail("%s (%s): returned no error (result %v), want the error of call %d", op, desc, got, c.J)
+				return pbt.Fail("%s (%s): returned no error (result %s), want the error of call %d", op, desc, show(got), c.J)
 			}
 			if err != error(errs[c.J]) {
 				return pbt.Fail("%s (%s): returned error %q, want the first error %q", op, desc, err, errs[c.J])
 			}
 			if len(got) != 0 {
-				return pbt.Fail("%s (%s): returned result %v together with error %q, want no result", op, desc, got, err)
+				return pbt.Fail("%s (%s): returned result %s together with error %q, want no result", op, desc, show(got), err)
 			}
 			if calls != c.J+1 {
 				return pbt.Fail("%s (%s): conversion was invoked %d times, want %d (stop at the first error)", op, desc, calls, c.J+1)
@@ -422,29 +525,47 @@ func Run(c Case) pbt.Outcome {
 	}
 
 	// ---- Index, Contains, ContainsFunc over the probe universe
+	var probes []int
 	for v := loUniv; v <= hiUniv; v++ {
+		probes = append(probes, v)
+	}
+	if n > 0 {
+		lo, hi := orig[0], orig[0]
+		for _, x := range orig {
+			if x < lo {
+				lo = x
+			}
+			if x > hi {
+				hi = x
+			}
+		}
+		for _, v := range []int{orig[0], orig[n/2], orig[n-1], lo - 1, hi + 1} { // lo-1 / hi+1 may wrap around: still valid probes
+			if !has(probes, v) {
+				probes = append(probes, v)
+			}
+		}
+	}
+	for _, v := range probes {
 		wIdx, wModIdx := -1, -1
 		for i, x := range orig {
 			if x == v && wIdx < 0 {
 				wIdx = i
 			}
-			if v >= 0 && x%m == v%m && wModIdx < 0 {
+			if x%m == v%m && wModIdx < 0 {
 				wModIdx = i
 			}
 		}
 		gIdx := slices.Index(s, v)
-		if msg := checkVal(fmt.Sprintf("Index(s, %d)", v), gIdx == wIdx, gIdx, wIdx); msg != "" {
+		if msg := lazyVal(gIdx == wIdx, gIdx, wIdx, "Index(s, %d)", v); msg != "" {
 			return pbt.Fail("%s", msg)
 		}
 		gC := slices.Contains(s, v)
-		if msg := checkVal(fmt.Sprintf("Contains(s, %d)", v), gC == (wIdx >= 0), gC, wIdx >= 0); msg != "" {
+		if msg := lazyVal(gC == (wIdx >= 0), gC, wIdx >= 0, "Contains(s, %d)", v); msg != "" {
 			return pbt.Fail("%s", msg)
 		}
-		if v >= 0 {
-			gCF := slices.ContainsFunc(s, v, eqMod)
-			if msg := checkVal(fmt.Sprintf("ContainsFunc(s, %d, a%%%d==b%%%d)", v, m, m), gCF == (wModIdx >= 0), gCF, wModIdx >= 0); msg != "" {
-				return pbt.Fail("%s", msg)
-			}
+		gCF := slices.ContainsFunc(s, v, eqMod)
+		if msg := lazyVal(gCF == (wModIdx >= 0), gCF, wModIdx >= 0, "ContainsFunc(s, %d, a%%%d==b%%%d)", v, m, m); msg != "" {
+			return pbt.Fail("%s", msg)
 		}
 	}
 
@@ -487,7 +608,7 @@ func Run(c Case) pbt.Outcome {
 		}
 		exceptRemoved = n - len(want)
 		var got myInts = slices.Except(s, set)
-		if msg := checkNew(fmt.Sprintf("Except(s, %v)", setSnap), got, want); msg != "" {
+		if msg := checkNew(fmt.Sprintf("Except(s, %s)", setDesc), got, want); msg != "" {
 			return pbt.Fail("%s", msg)
 		}
 		ex := make(maps.Set[int])
@@ -496,15 +617,15 @@ func Run(c Case) pbt.Outcome {
 		}
 		exLen := ex.Len()
 		got = slices.ExceptSet[myInts, int](s, ex)
-		if msg := checkNew(fmt.Sprintf("ExceptSet(s, set%v)", setSnap), got, want); msg != "" {
+		if msg := checkNew(fmt.Sprintf("ExceptSet(s, set%s)", setDesc), got, want); msg != "" {
 			return pbt.Fail("%s", msg)
 		}
 		if ex.Len() != exLen {
-			return pbt.Fail("ExceptSet(s, set%v) (%s) changed the exclude set: %d elements, was %d", setSnap, desc, ex.Len(), exLen)
+			return pbt.Fail("ExceptSet(s, set%s) (%s) changed the exclude set: %d elements, was %d", setDesc, desc, ex.Len(), exLen)
 		}
-		for v := loUniv; v <= hiUniv; v++ {
+		for _, v := range append(append([]int(nil), probes...), setSnap...) {
 			if ex.Has(v) != has(setSnap, v) {
-				return pbt.Fail("ExceptSet(s, set%v) (%s) changed the exclude set: Has(%d)=%v", setSnap, desc, v, ex.Has(v))
+				return pbt.Fail("ExceptSet(s, set%s) (%s) changed the exclude set: Has(%d)=%v", setDesc, desc, v, ex.Has(v))
 			}
 		}
 	}
@@ -580,34 +701,42 @@ func Run(c Case) pbt.Outcome {
 			lo2++
 		}
 		trimL, trimR = lo2, n-hi
-		if msg := checkSub(fmt.Sprintf("Trim(s, %v)", setSnap), slices.Trim(s, set), lo, hi); msg != "" {
+		if msg := checkSub(fmt.Sprintf("Trim(s, %s)", setDesc), slices.Trim(s, set), lo, hi); msg != "" {
 			return pbt.Fail("%s", msg)
 		}
-		if msg := checkSub(fmt.Sprintf("TrimLeft(s, %v)", setSnap), slices.TrimLeft(s, set), lo2, n); msg != "" {
+		if msg := checkSub(fmt.Sprintf("TrimLeft(s, %s)", setDesc), slices.TrimLeft(s, set), lo2, n); msg != "" {
 			return pbt.Fail("%s", msg)
 		}
-		if msg := checkSub(fmt.Sprintf("TrimRight(s, %v)", setSnap), slices.TrimRight(s, set), 0, hi); msg != "" {
+		if msg := checkSub(fmt.Sprintf("TrimRight(s, %s)", setDesc), slices.TrimRight(s, set), 0, hi); msg != "" {
 			return pbt.Fail("%s", msg)
 		}
 	}
 
-	// ---- TryGet, SafeGet, SafeGetOr over indices -2..n+1; Last
-	for i := -2; i <= n+1; i++ {
+	// ---- TryGet, SafeGet, SafeGetOr over indices -2..n+1 (a selection for long slices) and the extreme ints; Last
+	idxs := []int{math.MinInt, math.MaxInt}
+	if n <= 64 {
+		for i := -2; i <= n+1; i++ {
+			idxs = append(idxs, i)
+		}
+	} else {
+		idxs = append(idxs, -2, -1, 0, 1, 31, 32, 33, 63, 64, n/2, n-2, n-1, n, n+1, 2*n)
+	}
+	for _, i := range idxs {
 		in := i >= 0 && i < n
 		wv, wor := 0, c.Fallback
 		if in {
 			wv, wor = orig[i], orig[i]
 		}
 		gv, gok := slices.TryGet(s, i)
-		if msg := checkVal(fmt.Sprintf("TryGet(s, %d)", i), gv == wv && gok == in, fmt.Sprint(gv, gok), fmt.Sprint(wv, in)); msg != "" {
+		if msg := lazyVal(gv == wv && gok == in, [2]any{gv, gok}, [2]any{wv, in}, "TryGet(s, %d)", i); msg != "" {
 			return pbt.Fail("%s", msg)
 		}
 		gv = slices.SafeGet(s, i)
-		if msg := checkVal(fmt.Sprintf("SafeGet(s, %d)", i), gv == wv, gv, wv); msg != "" {
+		if msg := lazyVal(gv == wv, gv, wv, "SafeGet(s, %d)", i); msg != "" {
 			return pbt.Fail("%s", msg)
 		}
 		gv = slices.SafeGetOr(s, i, c.Fallback)
-		if msg := checkVal(fmt.Sprintf("SafeGetOr(s, %d, %d)", i, c.Fallback), gv == wor, gv, wor); msg != "" {
+		if msg := lazyVal(gv == wor, gv, wor, "SafeGetOr(s, %d, %d)", i, c.Fallback); msg != "" {
 			return pbt.Fail("%s", msg)
 		}
 	}
@@ -634,8 +763,41 @@ func Run(c Case) pbt.Outcome {
 		lab("n=2")
 	case n <= 6:
 		lab("n=3..6")
+	case n <= 32:
+		lab("n=7..32")
+	case n <= 64:
+		lab("n=33..64")
+	case n <= 256:
+		lab("n=65..256")
+	case n <= 1024:
+		lab("n=257..1024")
+	case n <= 4096:
+		lab("n=1025..4096")
 	default:
-		lab("n>=7")
+		lab("n>4096")
+	}
+	for _, th := range []int{32, 64, 256, 1024, 4096} {
+		if distinct > th {
+			lab("distinct>" + strconv.Itoa(th))
+		}
+		if groupsSeen > th {
+			lab("groupby:groups>" + strconv.Itoa(th))
+		}
+	}
+	if groupsSeen > 32 && distinct > groupsSeen {
+		lab("groupby:>32-groups-with-distinct-members")
+	}
+	for _, x := range orig {
+		if x > math.MaxInt-1<<20 || x < math.MinInt+1<<20 {
+			lab("values:near-int-limits")
+			break
+		}
+	}
+	if len(setSnap) > 32 {
+		lab("exclude-list>32")
+	}
+	if c.Nest > 0 {
+		lab("nested-calls-from-callbacks")
 	}
 	if dup {
 		lab("has-duplicates")
@@ -728,13 +890,16 @@ func genCase(t *rapid.T) Case {
 		c.S = []int{}
 	}
 	c.Set = set
+	if rapid.IntRange(0, 3).Draw(t, "nested") == 0 {
+		c.Nest = rapid.IntRange(1, n+2).Draw(t, "nest")
+	}
 	return c
 }
 
 var specRand = pbt.Register(&pbt.Spec[Case]{
 	Property: "C14", Name: "C14.rand",
 	Rule: "rapid: length 3..12 over 0..k (k drawn 1..5), one case in eight length 0..2 (k 0..5), spare 0..3, m 1..4, c 0..6, j 0..n+1, unwanted list 0..5 values " +
-		"(often containing the slice's end values); " + sliceRule,
+		"(often containing the slice's end values), one case in four with nest 1..n+2; " + sliceRule,
 	Gen: genCase, Run: Run, Quick: 30000, Thorough: 200000,
 })
 
@@ -782,6 +947,9 @@ func enumGrid(k, maxLen, maxM int, yield func(Case) bool) bool {
 					for t := 0; t <= tmax; t++ {
 						cs := Case{S: append([]int{}, s...), Spare: (n + sub + t) % 3, Nil: t%2 == 1, M: m, R: r, C: t,
 							Seed: t%3 - 1, J: t, Set: set, Fallback: 7}
+						if q := (n + sub + t + m + r) % 8; q < 3 && n > 0 {
+							cs.Nest = 1 + (q+t)%(n+2)
+						}
 						if !yield(cs) {
 							return false
 						}
@@ -796,7 +964,7 @@ func enumGrid(k, maxLen, maxM int, yield func(Case) bool) bool {
 var specEnum = pbt.Register(&pbt.Spec[Case]{
 	Property: "C14", Name: "C14.enum",
 	Rule: "exhaustive small scope: every sequence over 0..2 of length 0..5 x (m in 1..3, r<m) x every subset of 0..2 as unwanted/exclude list " +
-		"x t in 0..max(n,3) with j=c=t (thorough: additionally sequences over 0..2 up to length 7 with m<=2, and over 0..3 up to length 5 with m<=3); " + sliceRule,
+		"x t in 0..max(n,3) with j=c=t, three points in eight with nested calls (thorough: additionally sequences over 0..2 up to length 7 with m<=2, and over 0..3 up to length 5 with m<=3); " + sliceRule,
 	Enum: func(shard, shards int, tier string, yield func(Case) bool) {
 		if !enumGrid(3, 5, 3, yield) {
 			return
